@@ -55,7 +55,7 @@ func init() {
 		Run:         run,
 		Floors: func(t string) map[string]int64 {
 			return map[string]int64{"runs.free": 1000, "runs.perturbed": 300, "runs.forced": 200, "window.forced_observed": 100, "keep.tags": 100, "keep.bounds": 100, "keep.all": 100,
-				"order.shuffled": 20, "order.ways_first": 10, "doc.relation_cycle": 10, "doc.dangling": 3, "filter.checked": 100, "gomaxprocs.16": 50}
+				"order.shuffled": 20, "order.ways_first": 10, "doc.relation_cycle": 10, "doc.dangling": 3, "filter.checked": 100, "gomaxprocs.16": 50, "format.pbf": 300, "format.xml": 1000}
 		},
 	})
 }
@@ -142,7 +142,9 @@ func randTags(r *gen.R, p float64) []tag {
 }
 
 func genDoc(c *core.Ctx, r *gen.R) *doc {
-	d := &doc{box: geom.Bounds{Min: geom.Point{X: 10, Y: 20}, Max: geom.Point{X: 11, Y: 21}}}
+	// coordinates are multiples of the PBF unit (1e-7 degree) in the value a PBF reader
+	// reconstructs, so that the XML and the PBF spelling of a document carry identical floats
+	d := &doc{box: geom.Bounds{Min: geom.Point{X: normCoord(10), Y: normCoord(20)}, Max: geom.Point{X: normCoord(11), Y: normCoord(21)}}}
 	nn := r.IntRange(2, 30)
 	for i := 0; i < nn; i++ {
 		n := dnode{ID: int64(1 + i), Tags: randTags(r, 0.15)}
@@ -154,6 +156,7 @@ func genDoc(c *core.Ctx, r *gen.R) *doc {
 		default: // outside
 			n.Lon, n.Lat = r.Range(11.5, 13), r.Range(18, 23)
 		}
+		n.Lon, n.Lat = normCoord(n.Lon), normCoord(n.Lat)
 		d.nodes = append(d.nodes, n)
 	}
 	nw := r.IntRange(0, 15)
@@ -584,6 +587,7 @@ func rules(d *doc, r *gen.R) []rule {
 }
 
 type schedule struct {
+	pbf   bool
 	procs int
 	mode  string // free | perturbed | forced
 	rule  *rule
@@ -619,8 +623,24 @@ func run(c *core.Ctx, idx int) {
 			scheds = scheds[1:] // GOMAXPROCS 1 cannot race
 		}
 		var first *sets
+		// the same document as PBF: a reduced schedule set
+		pbfBytes := d.pbf()
+		nXML := len(scheds)
+		if !race {
+			scheds = append(scheds, schedule{procs: 1, mode: "free", pbf: true}, schedule{procs: 4, mode: "free", pbf: true}, schedule{procs: 4, mode: "perturbed", seed: r.Uint64(), pbf: true})
+			if rs := rules(d, r); len(rs) > 0 {
+				rl := rs[0]
+				scheds = append(scheds, schedule{procs: 2, mode: "forced", rule: &rl, pbf: true})
+			}
+		}
+		_ = nXML
 		for _, sc := range scheds {
 			c.Eval()
+			if sc.pbf {
+				c.Count("format.pbf")
+			} else {
+				c.Count("format.xml")
+			}
 			c.Count("runs." + sc.mode)
 			c.Count(fmt.Sprintf("gomaxprocs.%d", sc.procs))
 			ct := &controller{rule: sc.rule, released: make(chan struct{}), perturb: sc.mode == "perturbed", seed: sc.seed}
@@ -632,8 +652,15 @@ func run(c *core.Ctx, idx int) {
 			if sc.rule != nil {
 				detail["forced_window"] = fmt.Sprintf("hold store of %c%d until %c%d has been judged", sc.rule.holdKind, sc.rule.holdID, sc.rule.awaitKind, sc.rule.awaitID)
 			}
-			panicked := c.Guard("ExtractXML", detail, func() {
-				data, err = gosm.ExtractXML(context.Background(), bytes.NewReader(xmlBytes), k.fn(d), true)
+			if sc.pbf {
+				detail["format"] = "pbf (same document, one block per run of same-kind elements)"
+			}
+			panicked := c.Guard("Extract", detail, func() {
+				if sc.pbf {
+					data, err = gosm.ExtractPBF(context.Background(), bytes.NewReader(pbfBytes), k.fn(d), true)
+				} else {
+					data, err = gosm.ExtractXML(context.Background(), bytes.NewReader(xmlBytes), k.fn(d), true)
+				}
 			})
 			runtime.GOMAXPROCS(prev)
 			gosm.SetVerifHook(nil)
@@ -641,7 +668,7 @@ func run(c *core.Ctx, idx int) {
 				continue
 			}
 			if err != nil {
-				c.Violate("extract-error", fmt.Sprintf("ExtractXML failed: %v", err), detail)
+				c.Violate("extract-error", fmt.Sprintf("extraction failed: %v", err), detail)
 				continue
 			}
 			ct.mu.Lock()
